@@ -6,7 +6,7 @@
    (proofs/NttProofs.v), and the historical refutations of the four defects of the originally pinned tree. *)
 From Coq Require Import ZArith Lia List Bool Ring Field Setoid Morphisms.
 From TF Require Import Word BFieldGen BField XField FieldOps FieldTheory PolyGen PolyCore PolySpec PolyCoreProofs.
-From TF Require Import Dft NttDft BFieldProofs BFieldOk Ntt NttProofs.
+From TF Require Import Dft NttDft BFieldProofs BFieldOk Ntt NttProofs PolyC07Wrap.
 Import ListNotations.
 Open Scope Z_scope.
 
@@ -181,13 +181,13 @@ Local Notation okb := (Forall canon).
 (* Polynomial<BFieldElement>: unconditional theorems (transform lengths up to 2^31) *)
 Theorem bfe_naive_multiply_spec a b : okb a -> okb b ->
   okb (poly_naive_multiply bfe_ops a b) /\ peq fp_field (Db (poly_naive_multiply bfe_ops a b)) (pmul fp_field (Db a) (Db b)).
-Proof. exact (naive_multiply_spec bfe_ops fp_field canon bden bfe_field_ok). Qed.
+Proof. apply (naive_multiply_spec bfe_ops fp_field canon bden bfe_field_ok). Qed.
 Theorem bfe_fast_multiply_spec a b : okb a -> okb b -> poly_degree bfe_ops a + poly_degree bfe_ops b + 1 <= 2 ^ 31 ->
   exists r, poly_fast_multiply bfe_ops ntt_b intt_b a b = Some r /\ okb r /\
             zlen r <= Z.max 0 (poly_degree bfe_ops a + poly_degree bfe_ops b + 1) /\
             peq fp_field (Db r) (pmul fp_field (Db a) (Db b)).
 Proof.
-  exact (fast_multiply_spec bfe_ops fp_field canon bden bfe_field_ok ntt_b intt_b 31 wr_b ntt_b_hyp intt_b_hyp wr_b_half wr_b_nonzero
+  apply (fast_multiply_spec bfe_ops fp_field canon bden bfe_field_ok ntt_b intt_b 31 wr_b ntt_b_hyp intt_b_hyp wr_b_half wr_b_nonzero
            fp_two_neq_0).
 Qed.
 Theorem bfe_multiply_spec a b : okb a -> okb b -> poly_degree bfe_ops a + poly_degree bfe_ops b + 1 <= 2 ^ 31 ->
@@ -195,42 +195,42 @@ Theorem bfe_multiply_spec a b : okb a -> okb b -> poly_degree bfe_ops a + poly_d
             zlen r <= Z.max 0 (poly_degree bfe_ops a + poly_degree bfe_ops b + 1) /\
             peq fp_field (Db r) (pmul fp_field (Db a) (Db b)).
 Proof.
-  exact (multiply_spec bfe_ops fp_field canon bden bfe_field_ok ntt_b intt_b 31 wr_b ntt_b_hyp intt_b_hyp wr_b_half wr_b_nonzero
+  apply (multiply_spec bfe_ops fp_field canon bden bfe_field_ok ntt_b intt_b 31 wr_b ntt_b_hyp intt_b_hyp wr_b_half wr_b_nonzero
            fp_two_neq_0).
 Qed.
 Theorem bfe_square_spec l : okb l -> 2 * poly_degree bfe_ops l + 1 <= 2 ^ 31 ->
   exists r, poly_square bfe_ops ntt_b intt_b l = Some r /\ okb r /\ peq fp_field (Db r) (pmul fp_field (Db l) (Db l)).
 Proof.
-  exact (square_v1_spec bfe_ops fp_field canon bden bfe_field_ok ntt_b intt_b 31 wr_b ntt_b_hyp intt_b_hyp wr_b_half wr_b_nonzero
+  apply (square_v1_spec bfe_ops fp_field canon bden bfe_field_ok ntt_b intt_b 31 wr_b ntt_b_hyp intt_b_hyp wr_b_half wr_b_nonzero
            fp_two_neq_0).
 Qed.
 Theorem bfe_fast_square_spec l : okb l -> 2 * poly_degree bfe_ops l + 1 <= 2 ^ 31 ->
   exists r, poly_fast_square bfe_ops ntt_b intt_b l = Some r /\ okb r /\ peq fp_field (Db r) (pmul fp_field (Db l) (Db l)).
 Proof.
-  exact (fast_square_spec bfe_ops fp_field canon bden bfe_field_ok ntt_b intt_b 31 wr_b ntt_b_hyp intt_b_hyp wr_b_half wr_b_nonzero
+  apply (fast_square_spec bfe_ops fp_field canon bden bfe_field_ok ntt_b intt_b 31 wr_b ntt_b_hyp intt_b_hyp wr_b_half wr_b_nonzero
            fp_two_neq_0).
 Qed.
 Theorem bfe_pow_spec l e : okb l -> 0 <= e ->
   exists r, poly_pow bfe_ops l e = Some r /\ okb r /\ peq fp_field (Db r) (ppow fp_field (Db l) (Z.to_nat e)).
-Proof. exact (pow_spec bfe_ops fp_field canon bden bfe_field_ok). Qed.
+Proof. apply (pow_spec bfe_ops fp_field canon bden bfe_field_ok). Qed.
 Theorem bfe_fast_pow_spec l e : okb l -> 0 <= e -> Z.max 0 (poly_degree bfe_ops l) * e * 2 + 1 <= 2 ^ 31 ->
   exists r, poly_fast_pow bfe_ops ntt_b intt_b l e = Some r /\ okb r /\ peq fp_field (Db r) (ppow fp_field (Db l) (Z.to_nat e)).
 Proof.
-  exact (fast_pow_spec bfe_ops fp_field canon bden bfe_field_ok ntt_b intt_b 31 wr_b ntt_b_hyp intt_b_hyp wr_b_half wr_b_nonzero
+  apply (fast_pow_spec bfe_ops fp_field canon bden bfe_field_ok ntt_b intt_b 31 wr_b ntt_b_hyp intt_b_hyp wr_b_half wr_b_nonzero
            fp_two_neq_0).
 Qed.
 Theorem bfe_batch_multiply_spec ps : Forall okb ps -> total_len ps <= 2 ^ 31 ->
   exists r, poly_batch_multiply bfe_ops ntt_b intt_b ps = Some r /\ okb r /\
             peq fp_field (Db r) (pprod fp_field (map Db ps)).
 Proof.
-  exact (batch_multiply_spec bfe_ops fp_field canon bden bfe_field_ok ntt_b intt_b 31 wr_b ntt_b_hyp intt_b_hyp wr_b_half wr_b_nonzero
+  apply (batch_multiply_spec bfe_ops fp_field canon bden bfe_field_ok ntt_b intt_b 31 wr_b ntt_b_hyp intt_b_hyp wr_b_half wr_b_nonzero
            fp_two_neq_0).
 Qed.
 Theorem bfe_par_batch_multiply_spec nt ps : 1 <= nt -> Forall okb ps -> total_len ps <= 2 ^ 31 ->
   exists r, poly_par_batch_multiply bfe_ops ntt_b intt_b nt ps = Some r /\ okb r /\
             peq fp_field (Db r) (pprod fp_field (map Db ps)).
 Proof.
-  exact (par_batch_multiply_spec bfe_ops fp_field canon bden bfe_field_ok ntt_b intt_b 31 wr_b ntt_b_hyp intt_b_hyp wr_b_half
+  apply (par_batch_multiply_spec bfe_ops fp_field canon bden bfe_field_ok ntt_b intt_b 31 wr_b ntt_b_hyp intt_b_hyp wr_b_half
            wr_b_nonzero fp_two_neq_0).
 Qed.
 
@@ -271,5 +271,62 @@ Proof.
   assert (C1 : canon bfe_one) by exact (proj1 (fo_one _ _ _ _ bfe_field_ok)).
   assert (C5 : canon (bfe_new 5)) by (apply bden_new; lia).
   assert (C7 : canon (bfe_new 7)) by (apply bden_new; lia).
-  unfold w_one_stored, w_lin_stored, w_lin. repeat split; repeat constructor; assumption.
+  unfold w_one_stored, w_lin_stored, w_lin. cbn [app]. repeat split; repeat (constructor; try assumption).
 Qed.
+
+(* ------------------------------------------------------------------ value semantics of the NTT-based family
+   (corollaries of the C07 equations: both calls return the product of the denotations) *)
+Section ValueSemanticsFast.
+  Context {F K : Type} (o : fops F) (fk : fieldK K) (ok : F -> Prop) (den : F -> K).
+  Hypothesis H : field_ok o fk ok den.
+  Variables (ntt intt : list F -> option (list F)) (lmax : nat) (wr : nat -> K).
+  Hypothesis N1 : ntt_ok fk ok den ntt lmax wr.
+  Hypothesis N2 : intt_ok fk ok den intt lmax wr.
+  Hypothesis R : roots_ok fk lmax wr.
+  Local Notation D := (map den).
+  Local Notation same := (same fk ok den).
+
+  Theorem vs_multiply a a' b b' : same a a' -> same b b' ->
+    zlen a + zlen b <= 2 ^ Z.of_nat lmax -> zlen a' + zlen b' <= 2 ^ Z.of_nat lmax ->
+    exists r r', poly_multiply o ntt intt a b = Some r /\ poly_multiply o ntt intt a' b' = Some r' /\ same r r'.
+  Proof.
+    intros [Ha [Ha' Ea]] [Hb [Hb' Eb]] L L'. destruct R as [R1 [R2 R3]].
+    destruct (multiply_Hmult o fk ok den H ntt intt lmax wr N1 N2 R1 R2 R3 a b Ha Hb L) as [r [S1 [S2 [_ S3]]]].
+    destruct (multiply_Hmult o fk ok den H ntt intt lmax wr N1 N2 R1 R2 R3 a' b' Ha' Hb' L') as [r' [T1 [T2 [_ T3]]]].
+    exists r, r'. split; [exact S1|]. split; [exact T1|]. split; [exact S2|]. split; [exact T2|]. rewrite S3, T3, Ea, Eb. reflexivity.
+  Qed.
+  Theorem vs_square a a' : same a a' -> 2 * zlen a <= 2 ^ Z.of_nat lmax -> 2 * zlen a' <= 2 ^ Z.of_nat lmax ->
+    exists r r', poly_square o ntt intt a = Some r /\ poly_square o ntt intt a' = Some r' /\ same r r'.
+  Proof.
+    intros [Ha [Ha' Ea]] L L'. pose proof (degree_lt_len o a). pose proof (degree_lt_len o a').
+    destruct (w_square o fk ok den H ntt intt lmax wr N1 N2 R a Ha ltac:(lia)) as [r [S1 [S2 S3]]].
+    destruct (w_square o fk ok den H ntt intt lmax wr N1 N2 R a' Ha' ltac:(lia)) as [r' [T1 [T2 T3]]].
+    exists r, r'. split; [exact S1|]. split; [exact T1|]. split; [exact S2|]. split; [exact T2|]. rewrite S3, T3, Ea. reflexivity.
+  Qed.
+  Lemma pprod_same ps ps' : Forall2 same ps ps' -> peq fk (pprod fk (map D ps)) (pprod fk (map D ps')).
+  Proof.
+    induction 1 as [|a a' ps ps' [_ [_ E]] _ IH]; [reflexivity|]. cbn [map]. rewrite !pprod_cons, E, IH. reflexivity.
+  Qed.
+  Theorem vs_batch_multiply ps ps' : Forall2 same ps ps' ->
+    total_len ps <= 2 ^ Z.of_nat lmax -> total_len ps' <= 2 ^ Z.of_nat lmax ->
+    exists r r', poly_batch_multiply o ntt intt ps = Some r /\ poly_batch_multiply o ntt intt ps' = Some r' /\ same r r'.
+  Proof.
+    intros S L L'.
+    assert (O1 : Forall (Forall ok) ps) by (clear -S; induction S as [|? ? ? ? [X _]]; constructor; assumption).
+    assert (O2 : Forall (Forall ok) ps') by (clear -S; induction S as [|? ? ? ? [_ [X _]]]; constructor; assumption).
+    destruct (w_batch_multiply o fk ok den H ntt intt lmax wr N1 N2 R ps O1 L) as [r [S1 [S2 S3]]].
+    destruct (w_batch_multiply o fk ok den H ntt intt lmax wr N1 N2 R ps' O2 L') as [r' [T1 [T2 T3]]].
+    exists r, r'. split; [exact S1|]. split; [exact T1|]. split; [exact S2|]. split; [exact T2|]. rewrite S3, T3. apply pprod_same. exact S.
+  Qed.
+  Theorem vs_par_batch_multiply nt nt' ps ps' : 1 <= nt -> 1 <= nt' -> Forall2 same ps ps' ->
+    total_len ps <= 2 ^ Z.of_nat lmax -> total_len ps' <= 2 ^ Z.of_nat lmax ->
+    exists r r', poly_par_batch_multiply o ntt intt nt ps = Some r /\ poly_par_batch_multiply o ntt intt nt' ps' = Some r' /\ same r r'.
+  Proof.
+    intros Hn Hn' S L L'.
+    assert (O1 : Forall (Forall ok) ps) by (clear -S; induction S as [|? ? ? ? [X _]]; constructor; assumption).
+    assert (O2 : Forall (Forall ok) ps') by (clear -S; induction S as [|? ? ? ? [_ [X _]]]; constructor; assumption).
+    destruct (w_par_batch_multiply o fk ok den H ntt intt lmax wr N1 N2 R nt ps Hn O1 L) as [r [S1 [S2 S3]]].
+    destruct (w_par_batch_multiply o fk ok den H ntt intt lmax wr N1 N2 R nt' ps' Hn' O2 L') as [r' [T1 [T2 T3]]].
+    exists r, r'. split; [exact S1|]. split; [exact T1|]. split; [exact S2|]. split; [exact T2|]. rewrite S3, T3. apply pprod_same. exact S.
+  Qed.
+End ValueSemanticsFast.
